@@ -527,6 +527,11 @@ func genDictCase(cx *CheckCtx, i int, allowQualKeys bool) *Case {
 		},
 		func() *Stmt { return st(kw("Null")) },
 		func() *Stmt { return st() },
+		// identifiers and literals that number parsers accept (NaN compares with nothing: a
+		// comparator that looks at numeric VALUES stops being an order), beside plain numbers
+		func() *Stmt { return st(id(pick(r, []string{"NaN", "nan", "Inf", "inf", "Infinity", "infinity", "NAN"}))) },
+		func() *Stmt { return st(mkLit(pick(r, []int{0, 1, 2, 3, 10, 20, 100, -1, -10}))) },
+		func() *Stmt { return st(mkLit(pick(r, []float64{0.5, 1.5, 10.25, -2.5, 1e3, 1e-3}))) },
 		// text with fmt verbs in it (rendered text must never be used as a format string)
 		func() *Stmt { return st(mkLit(pick(r, []string{"%d items", "100%", "%s", "%%", "%!v(MISSING)"}))) },
 		func() *Stmt { return st(id("n"), op("%"), mkLit(2+r.Intn(3))) },
